@@ -23,7 +23,11 @@ RULE = ("(a) `nm` over the freshly compiled C library objects (blake3.c with and
         "detection cache untouched; every thread runs a complete history on its own instances (hasher histories, XOF "
         "reader sequences, update_rayon, direct kernel calls; C: CH histories with mask `detect` and direct kernels); "
         "each thread's result line must equal the sequential model result of the same sub-case.  Every fourth case all "
-        "threads race the very first detection on the same short input.  Thorough: the C side under TSan.  Non-trivial "
+        "threads race the very first detection on the same short input; the C builds add 160 (asm) + 40 (intrinsics) "
+        "fresh processes (thorough 600 + 200) whose 4/8/16 threads all hash one large input with thread starts staggered by "
+        "0..50 us (first-detection race against threads already inside compress_subtree_wide).  (c) get_cpu_features is "
+        "TRANSLATED (tools/gen_coq.py gen_dispatch -> gen/GenDispatch.v) and the theorems C18_c_cache_* show that every "
+        "store to g_cpu_features is the complete returned value.  Thorough: the C side under TSan.  Non-trivial "
         "= distinct THR case with at least two different sub-cases or a first-detection race.")
 MODELLED = ["OS scheduling: interleavings are sampled, not enumerated; the model's `touches only its own instance` is "
             "tied by the writable-symbol scan and, for Rust, by ownership (&mut self)",
@@ -244,7 +248,13 @@ def thr_cases(rng, pool, tier, short):
 
 def run_threads(ctx, drv, label, binary, pool, cases, env, strip=(), profile="debug", errs=None):
     used = sorted(set(i for _, subs in cases for i in subs))
-    mr = verif.run_model(drv, ["m%d %s" % (i, pool[i][1]) for i in used])
+    cache = ctx.__dict__.setdefault("_model_cache", {})
+    todo = [i for i in used if pool[i][1] not in cache]
+    if todo:
+        got = verif.run_model(drv, ["m%d %s" % (i, pool[i][1]) for i in todo])
+        for i in todo:
+            cache[pool[i][1]] = got.get("m%d" % i, "MISSING")
+    mr = {"m%d" % i: cache[pool[i][1]] for i in used}
     lines = ["t%d THR %d %s" % (j, n, "|".join(pool[i][0] for i in subs)) for j, (n, subs) in enumerate(cases)]
     res = run_fresh(binary, lines, env=env, stderr=errs)
     nfail = 0
@@ -261,7 +271,7 @@ def run_threads(ctx, drv, label, binary, pool, cases, env, strip=(), profile="de
                 if kern.BADTOK.search(" ".join(toks)) or "diff" in toks or \
                         not verif.compare_line(mr.get("m%d" % i, "MISSING"), " ".join(toks), profile):
                     ok = False
-        if len(set(subs)) >= 2 or subs[0] >= len(pool) - 8:
+        if len(set(subs)) >= 2 or subs[0] >= len(pool) - 11:
             ctx.nontrivial.add("%s %d %s" % (label.split("/")[0], n, ",".join(map(str, subs))))
         if not ok:
             nfail += 1
@@ -323,6 +333,27 @@ def correspondence(ctx):
         label = "c-%s%s" % (variant, "-" + san if san else "")
         env = {"C_GUARD": "1", "C_GUARD_SIDE": "hi", "C_HM_LAYOUT": "contig"} if not san else {"C_GUARD": "0"}
         run_threads(ctx, drv, label, cb, cpool, ccases, env, strip=("ok", "same"), errs=errs)
+        # first-detection race: every thread of a fresh process hashes the same large input (several wide
+        # updates) so that threads are inside compress_subtree_wide while later threads still run their first
+        # get_cpu_features; thread i's start is delayed by i * C_THR_STAGGER_NS.  A cache that is ever written with
+        # anything but the final value (a partial feature set, a different degree) shows up as a wrong digest.
+        if not san:
+            big = []
+            for n in (16384, 65536, 102400):
+                cpool.append(("CH hash detect u:0:prng/7/%d u:0:prng/8/65536 u:0:prng/9/%d f:0:32" % (n, n),
+                              "H hash detect u:0:prng/7/%d u:0:prng/8/65536 u:0:prng/9/%d x:0:32" % (n, n)))
+                big.append(len(cpool) - 1)
+            nproc = (600 if thorough else 160) if variant == "asm" else (200 if thorough else 40)
+            if not ctx.proofs_ok:
+                nproc *= 5      # a proof obligation broke: search harder for a concrete failing schedule
+            staggers = [0, 1000, 5000, 20000, 50000]
+            for si, st in enumerate(staggers):
+                rc_ = [(crng.choice([4, 8, 16]), None) for _ in range(nproc // len(staggers))]
+                rcases = [(n, [big[(j + si) % len(big)]] * n) for j, (n, _) in enumerate(rc_)]
+                env2 = dict(env)
+                env2["C_THR_STAGGER_NS"] = str(st)
+                run_threads(ctx, drv, "%s/first-detection-race/stagger%d" % (label, st), cb, cpool, rcases, env2,
+                            strip=("ok", "same"), errs=errs)
         for ids, text in errs:
             ctx.failures.append({"correspondence": "sanitizer/stderr report", "case": "THR case " + ",".join(ids),
                                  "model": "", "impl": text[:1500], "build": label})
